@@ -91,6 +91,9 @@ def h_grid(ctx, cls):
         fcol = fcol.astype("float64" if dt == "float64" else dt)
         fcol.iloc[[3, 11]] = np.nan
     q = pd.Series([qs[i % 3] for i in range(n)], dtype=object)
+    if all(isinstance(v, (int, float)) for v in qs) and ctx.choose("qual_native_dtype", 2):
+        # numeric-valued categories held in a numeric column (members are numpy scalars in the fitted object, Python numbers after a reload)
+        q = q.astype("float64" if (with_nan or any(isinstance(v, float) for v in qs)) else "int64")
     if with_nan:
         q.iloc[[5, 17]] = np.nan
     X = pd.DataFrame({"f": fcol, "q": q})
